@@ -188,6 +188,20 @@ impl Property for C05 {
     }
 
     fn run(&self, src: &mut Src, rep: &mut Report) -> Verdict {
+        let mut used_pair = false;
+        match self.run_inner(src, rep, &mut used_pair) {
+            // the case requested both strings of the known FNV-1a collision: whatever goes wrong then is reported under the
+            // collision's own signature (a known finding of the unchanged library), not under the generic ones
+            Verdict::Fail { sig, detail } if used_pair => {
+                Verdict::Fail { sig: "fnv64-collision-conflates-label-values".into(), detail: format!("[{}] {}", sig, detail) }
+            }
+            v => v,
+        }
+    }
+}
+
+impl C05 {
+    fn run_inner(&self, src: &mut Src, rep: &mut Report, used_pair: &mut bool) -> Verdict {
         let kind = *src.pick(KINDS);
         let mut nlab = 1 + src.below(4);
         if nlab == 4 && src.chance(48) {
@@ -262,7 +276,25 @@ impl Property for C05 {
             // (a region removed or repeated, one byte changed, or unchanged) - chunk-wise or prefix-based hashing of label values
             // separates short strings and goes wrong exactly on such pairs
             let long_req = src.chance(16);
-            let tuple: Vec<String> = if long_req {
+            // 1% of requests: one value is one of the two strings with equal 64-bit FNV-1a hash, the rest as in the earlier
+            // request that used the other one
+            let coll_req = src.chance(3);
+            let tuple: Vec<String> = if coll_req {
+                let (a, b) = crate::pools::FNV64_COLLISION;
+                match history.iter().rev().find(|(t, _)| t.iter().any(|v| v == a || v == b)).map(|(t, _)| t.clone()) {
+                    Some(prev) => {
+                        *used_pair = true;
+                        rep.class("fnv64-collision-pair-requested");
+                        prev.iter().map(|v| if v == a { b.to_string() } else if v == b { a.to_string() } else { v.clone() }).collect()
+                    }
+                    None => {
+                        let k = src.below(nlab);
+                        let mut t: Vec<String> = (0..nlab).map(|_| src.text(VALUE_FRAGS, 1)).collect();
+                        t[k] = if src.chance(128) { a.to_string() } else { b.to_string() };
+                        t
+                    }
+                }
+            } else if long_req {
                 const ALPHA: &[u8] = b"abcdefghijklmnopqrstuvwxyz0123456789_";
                 match &last_long {
                     Some((prev, k)) if src.chance(170) => {
